@@ -43,3 +43,44 @@ PROPS["C07"] = dict(
     trusted=COMMON_TRUST + ["std::sort tie order is canonicalised on both sides", "values are small integers (IEEE arithmetic exact)"],
     assumptions=["loop <-> fold correspondence of the model is validated by the runs, not proved"],
 )
+
+
+def c02_configs(tier, seed):
+    cfgs = [{"tag": "h_c02-seq", "harness": "h_c02", "np": 1, "args": ["seq"], "asan": True}]
+    for n in nps(tier, [1, 2, 3, 4, 7], list(range(1, 17))):
+        cfgs.append({"tag": f"h_c02-par-np{n}", "harness": "h_c02", "np": n, "args": ["par"]})
+    return cfgs
+
+
+PROPS["C02"] = dict(
+    module="RaptorModel.Props.C02",
+    harnesses=["h_c02"],
+    configs=c02_configs,
+    rule=("sequential: random matrices (0..10, rectangular, empty, duplicates, explicit zeros) in COO/CSR/CSC x 7 kernels; "
+          "distributed: random global triplets assembled through ParCOOMatrix::add_value+finalize on the default layout, explicit random "
+          "layouts and layouts with empty ranks / one rank owning everything / ranks with columns but no rows, converted to ParCSR/ParCSC, "
+          "x {mult, mult_append, mult_T, residual} x {standard, topology-aware}; integer-valued vectors. Non-trivial = at least one stored entry."),
+    trusted=COMMON_TRUST + ["values are small integers, so IEEE arithmetic is exact and results are compared bitwise"],
+    assumptions=["floating-point reassociation is outside the theorem (exact arithmetic); the runs use integer-valued data for which it is vacuous"],
+)
+
+
+def seqpar_configs(h, quick_np, thorough_np):
+    def configs(tier, seed):
+        cfgs = [{"tag": f"{h}-seq", "harness": h, "np": 1, "args": ["seq"], "asan": True}]
+        for n in nps(tier, quick_np, thorough_np):
+            cfgs.append({"tag": f"{h}-par-np{n}", "harness": h, "np": n, "args": ["par"]})
+        return cfgs
+    return configs
+
+
+PROPS["C06"] = dict(
+    module="RaptorModel.Props.C06",
+    harnesses=["h_c06"],
+    configs=seqpar_configs("h_c06", [1, 2, 3, 4, 7], list(range(1, 17))),
+    rule=("sequential: random conforming pairs (rectangular, empty rows/cols, duplicates, explicit zeros, +-1 values so that products cancel "
+          "exactly) in every format pair, A*B and A^T*B; distributed: A (R x I layout) times B (I x C layout) for random/unbalanced/empty-rank "
+          "compositions R, I, C, A^T*D, and the Galerkin product P^T(AP); standard and topology-aware. Non-trivial = both factors non-empty."),
+    trusted=COMMON_TRUST + ["values are small integers, so products and sums are exact and 'dropped below 1e-16' means 'exactly zero'"],
+    assumptions=["floating-point reassociation is outside the theorem (exact arithmetic)"],
+)
